@@ -842,7 +842,7 @@ def extract(repo="/repo", crates=CRATES):
     return {
         "crates": {c: {k: manifests[c][k] for k in ("name", "features", "default", "implies")} |
                    {"optional_deps": sorted(d for d, v in manifests[c]["deps"].items() if v["optional"]),
-                    "deps": sorted(manifests[c]["deps"])} for c in crates},
+                    "deps": sorted(manifests[c]["deps"]), "documented": documented(repo, c)} for c in crates},
         "guards": I.guards,
         "items": items,
         "refs": refs,
@@ -850,6 +850,119 @@ def extract(repo="/repo", crates=CRATES):
         "resolver_passes": res.passes,
         "unresolved_samples": unresolved_samples,
     }
+
+
+# ----------------------------------------------------------------------------------------------
+# documentation: which features / feature lines the crate documents
+# ----------------------------------------------------------------------------------------------
+
+def documented(repo, crate):
+    """Feature names in the bullet list of the "Features" section of the crate docs (lib.rs `//!`
+    lines) and the feature lists of the documented `cargo add` command lines."""
+    text = []
+    with open(os.path.join(repo, crate, "src", "lib.rs"), encoding="utf-8") as f:
+        for line in f:
+            if line.startswith("//!"):
+                text.append(line[3:].strip())
+    bullets, in_feat = [], False
+    for l in text:
+        if l.startswith("#"):
+            in_feat = "feature" in l.lower()
+        elif in_feat:
+            m = re.match(r"\*\s+`([A-Za-z0-9_-]+)`", l)
+            if m:
+                bullets.append(m.group(1))
+            else:
+                bullets.extend(re.findall(r"`([a-z][a-z0-9_-]*)`\s+(?:and\s+`[a-z0-9_-]+`\s+)?features?", l))
+                bullets.extend(re.findall(r"behind\s+`([a-z][a-z0-9_-]*)`", l))
+                bullets.extend(re.findall(r"and\s+`([a-z][a-z0-9_-]*)`\s+features", l))
+    cmds = []
+    for l in text:
+        m = re.search(r"cargo add\b.*--features\s+'([^']*)'", l)
+        if m:
+            cmds.append(m.group(1).split())
+    seen, b2 = set(), []
+    for b in bullets:
+        if b not in seen:
+            seen.add(b)
+            b2.append(b)
+    return {"features": b2, "commands": cmds}
+
+
+# ----------------------------------------------------------------------------------------------
+# lowering for TLC (ndjson tables, 1-based indices, reference classes)
+# ----------------------------------------------------------------------------------------------
+
+def lower(table, outdir, core=None):
+    """Writes crates/implies/guards/items/refs ndjson for spec/Features.tla.
+    References with identical (crate, source condition chain, alternatives' condition chains) are
+    one CLASS: the spec only looks at those chains, so one representative per class (with its
+    multiplicity n and an example location) is passed to TLC; the full list stays in table.json."""
+    os.makedirs(outdir, exist_ok=True)
+    core = core or {}
+    crates = table["crates"]
+
+    def norm(g):
+        return {"op": g["op"], "f": g.get("f", g.get("text", "")), "args": [norm(a) for a in g.get("args", [])]}
+
+    def dump(name, rows):
+        p = os.path.join(outdir, name)
+        with open(p, "w") as f:
+            for r in rows:
+                f.write(json.dumps(r, separators=(",", ":")) + "\n")
+        return p
+
+    paths = {}
+    crows = []
+    for c, info in crates.items():
+        user = ["%s/%s" % (c, f) for f in info["features"]]
+        cfeat = core.get(c)
+        aux = [u for u in user if cfeat is not None and u.split("/", 1)[1] not in cfeat]
+        cone = [c] + [d for d in info["deps"] if d in crates]
+        docsets = []
+        for cmd in info.get("documented", {}).get("commands", []):
+            docsets.append(["%s/%s" % (c, f) for f in cmd if f in info["features"]])
+        crows.append({"name": c, "user": user, "aux": aux, "cone": cone, "dflt": info["default"], "docsets": docsets})
+    paths["FEAT_CRATES"] = dump("crates.ndjson", crows)
+    irows = []
+    for c, info in crates.items():
+        for f, to in info["implies"].items():
+            irows.append({"f": "%s/%s" % (c, f), "to": to})
+    paths["FEAT_IMPLIES"] = dump("implies.ndjson", irows)
+    guards = [norm(g) for g in table["guards"]] or [{"op": "true", "f": "", "args": []}]
+    paths["FEAT_GUARDS"] = dump("guards.ndjson", guards)
+    items = table["items"]
+    # only items touched by a class representative are needed by TLC; keep indices stable by
+    # renumbering the touched ones
+    classes, order = {}, []
+    for ri, r in enumerate(table["refs"]):
+        src = items[r["src"]]
+        k = (src["crate"], tuple(src["conds"]),
+             tuple(sorted((tuple(items[a["t"]]["conds"]), tuple(a["via"])) for a in r["alts"])))
+        if k not in classes:
+            classes[k] = {"rep": ri, "n": 0}
+            order.append(k)
+        classes[k]["n"] += 1
+    used, renum = [], {}
+
+    def ix(i):
+        if i not in renum:
+            renum[i] = len(used) + 1
+            used.append(i)
+        return renum[i]
+
+    rrows = []
+    for k in order:
+        r = table["refs"][classes[k]["rep"]]
+        src = items[r["src"]]
+        rrows.append({"src": ix(r["src"]), "crate": src["crate"],
+                      "alts": [{"t": ix(a["t"]), "via": [g + 1 for g in a["via"]]} for a in r["alts"]],
+                      "n": classes[k]["n"], "rep": classes[k]["rep"],
+                      "eg": "%s:%s %s" % (src.get("file", "?"), r["line"], r["path"])})
+    paths["FEAT_REFS"] = dump("refs.ndjson", rrows)
+    paths["FEAT_ITEMS"] = dump("items.ndjson", [{"id": items[i]["id"], "crate": items[i]["crate"],
+                                                "conds": [g + 1 for g in items[i]["conds"]]} for i in used])
+    return paths, {"classes": len(rrows), "items_for_tlc": len(used)}
 
 
 def main():
